@@ -240,15 +240,15 @@ Definition h_step (st : hreader) (e : env) (o : hop) : hreader * env * hout :=
 
 (* ---------- histories: reader operations interleaved with co-tenant activity ---------- *)
 Inductive hstep : Type :=
-| SOp (o : hop) (al : list achoice) (adv : list (list costep))   (* one reader op with its oracle answers *)
+| SOp (o : hop) (al : list achoice) (adv padv : list (list costep))   (* one reader op with its oracle answers *)
 | SCo (l : list costep).                                          (* the co-tenant between two ops *)
 
 (* a step on (reader, world, trace): the op starts with exactly the oracle it is given *)
 Definition run_step (x : hreader * world * list event) (s : hstep) : hreader * world * list event * option hout :=
   let '(st, w, tr) := x in
   match s with
-  | SOp o al adv =>
-    let '(st', e', out) := h_step st (mkE w al adv tr) o in
+  | SOp o al adv padv =>
+    let '(st', e', out) := h_step st (mkE w al adv padv tr) o in
     (st', ew e', eev e', Some out)
   | SCo l => (st, co_run w l, tr, None)
   end.
